@@ -125,3 +125,29 @@ Example C01_example_statement_level :
 Proof. cbv zeta. repeat split; vm_compute; tauto. Qed.
 Goal True. idtac "ASSUMPTIONS-OF C01_example_statement_level". Abort.
 Print Assumptions C01_example_statement_level.
+
+(* ... the classes whose match() is STRINGBase/StringBase.match with literal patterns (Contains_Stmt, Access_Spec,
+   the edit descriptors without operands, '*' ...): every pattern is matched and returned as it is printed, in any
+   case when the class folds, and nothing else is accepted; and the classes that delegate to BracketBase
+   (Parenthesis, Char_Length, Format_Specification, Bind_Entity, Saved_Entity, Coarray_Bracket_Spec): left ++ inner ++
+   right is matched again with the same inner text, the empty pair where the content is optional, and what is
+   accepted is bracketed. *)
+Theorem C01_every_live_literal_string_class_rematches_its_own_text_partial :
+  forall cls pats fold, In (cls, pats, fold) string_classes ->
+  (forall p, In p pats -> strings_match pats fold p = Some p) /\
+  (fold = true -> forall s s', upper s = upper s' -> strings_match pats fold s = strings_match pats fold s') /\
+  (forall s u, strings_match pats fold s = Some u -> In u pats /\ u = (if fold then upper s else s)).
+Proof. exact live_string_classes. Qed.
+Goal True. idtac "ASSUMPTIONS-OF C01_every_live_literal_string_class_rematches_its_own_text_partial". Abort.
+Print Assumptions C01_every_live_literal_string_class_rematches_its_own_text_partial.
+
+Theorem C01_every_live_bracket_class_rematches_its_own_text_partial :
+  forall cls br has req, In (cls, br, has, req) bracket_classes ->
+  let l := fst (halves_of br) in let r := snd (halves_of br) in
+  (forall inner, has = true -> starts_solid inner -> bracket_match br has req (bracket_tostr br (BIn inner)) = BIn inner) /\
+  (req = false -> bracket_match br has req (bracket_tostr br BEmpty) = BEmpty) /\
+  (forall s inner, bracket_match br has req s = BIn inner ->
+     starts_with l (strip s) = true /\ ends_with r (strip s) = true /\ has = true /\ inner <> []).
+Proof. exact live_bracket_classes. Qed.
+Goal True. idtac "ASSUMPTIONS-OF C01_every_live_bracket_class_rematches_its_own_text_partial". Abort.
+Print Assumptions C01_every_live_bracket_class_rematches_its_own_text_partial.
